@@ -84,6 +84,9 @@ type Options struct {
 	Regions          []string
 	FibAlgo          string
 	M                int
+	// FreeRunning: the caller starts Thread.Run itself; the table's first timer signal is then
+	// left for Run to consume (otherwise a helper goroutine drains it)
+	FreeRunning bool
 }
 
 var lastFaces []uint64
@@ -122,7 +125,9 @@ func New(o Options) *Sim {
 	fwfw.Threads = []*fwfw.Thread{s.T}
 	dispatch.InitializeFWThreads([]dispatch.FWThread{s.T})
 	// the table arms a timer that signals an unbuffered channel: consume the first signal
-	go func() { <-fwfw.VerifPitCs(s.T).UpdateTimer() }()
+	if !o.FreeRunning {
+		go func() { <-fwfw.VerifPitCs(s.T).UpdateTimer() }()
+	}
 	core.ShouldQuit = false
 	return s
 }
